@@ -175,6 +175,7 @@ type TypeCtx struct {
 	strLits   map[string]string // literal -> const name
 	strOrder  []string
 	usesStr   bool
+	strBytes  bool // string contents are indexed somewhere: emit byte facts for literals
 	usesF64   bool
 	usesDyn   bool
 	typeIDs   map[string]int
@@ -201,11 +202,22 @@ func newTypeCtx(mode Mode) *TypeCtx {
 		typeIDs: map[string]int{}, extraSort: map[string]bool{}}
 }
 
-func (tc *TypeCtx) idxSort() string {
-	if tc.mode == ModeBV {
-		return "(_ BitVec 64)"
+func (tc *TypeCtx) idxSort() string { return "Int" }
+
+// isBV: in mode bv every fixed-width integer type is a bit-vector, except the index type int
+// (lengths, indices, loop counters), which stays a mathematical integer with overflow obligations.
+func (tc *TypeCtx) isBV(t types.Type) bool {
+	if tc.mode != ModeBV {
+		return false
 	}
-	return "Int"
+	b, ok := t.Underlying().(*types.Basic)
+	if !ok {
+		return false
+	}
+	if _, _, ok := intWidth(b); !ok {
+		return false
+	}
+	return b.Kind() != types.Int && b.Kind() != types.UntypedInt
 }
 
 func intWidth(b *types.Basic) (w int, signed bool, ok bool) {
@@ -291,7 +303,7 @@ func (tc *TypeCtx) sortOf(t types.Type) string {
 	switch u := t.Underlying().(type) {
 	case *types.Basic:
 		if w, _, ok := intWidth(u); ok {
-			if tc.mode == ModeBV {
+			if tc.isBV(t) {
 				return fmt.Sprintf("(_ BitVec %d)", w)
 			}
 			return "Int"
@@ -401,7 +413,7 @@ func (tc *TypeCtx) strLit(s string) string {
 }
 
 func (tc *TypeCtx) intLit(v *big.Int, t types.Type) string {
-	if tc.mode == ModeBV {
+	if tc.isBV(t) {
 		w := widthOf(t)
 		m := new(big.Int).Lsh(big.NewInt(1), uint(w))
 		x := new(big.Int).Mod(v, m)
@@ -562,7 +574,7 @@ func (tc *TypeCtx) declarations() string {
 		for _, s := range tc.strOrder {
 			fmt.Fprintf(&b, "(declare-const %s Str) ; %q\n", tc.strLits[s], trunc(s, 40))
 			fmt.Fprintf(&b, "(assert (= (g_strlen %s) %s))\n", tc.strLits[s], tc.idxLit(int64(len(s))))
-			if len(s) <= 16 {
+			if len(s) <= 16 && tc.strBytes {
 				for i := 0; i < len(s); i++ {
 					fmt.Fprintf(&b, "(assert (= (g_strat %s %s) %s))\n", tc.strLits[s], tc.idxLit(int64(i)), tc.intLit64(int64(s[i]), types.Typ[types.Uint8]))
 				}
